@@ -11,6 +11,7 @@ import (
 //	conn_key_is_dest                   — connections.list[name+X] holds the destination socket of link name+X
 //	registers_before_links             — both sockets are put in the table before the first StartLink
 //	stop_waits_then_closes             — stop(): tomb.Kill, tomb.Wait, then closes every registered connection
+//	writer_deregisters_its_name        — a link's writer closes the destination and deregisters the name the link was started under
 func extractProxy(repo string, o *out) {
 	p, err := loadPkg(repo)
 	if err != nil {
@@ -80,6 +81,103 @@ func extractProxy(repo string, o *out) {
 	}
 	o.emit("conn_key_is_dest", "", "bool", keyDest, "true", "", "")
 	o.emit("registers_before_links", "", "bool", regFirst, "true", "", "")
+
+	// writer_deregisters_its_name: StartLink(name) files the link under links[name] and starts it with that name; Start hands
+	// its name and destination to the writer goroutine; the writer closes that destination and calls RemoveLink and
+	// RemoveConnection with that name
+	paramAt := func(fd *ast.FuncDecl, i int) string {
+		k := 0
+		for _, f := range fd.Type.Params.List {
+			for _, n := range f.Names {
+				if k == i {
+					return n.Name
+				}
+				k++
+			}
+		}
+		return ""
+	}
+	paramIdx := func(fd *ast.FuncDecl, name string) int {
+		k := 0
+		for _, f := range fd.Type.Params.List {
+			for _, n := range f.Names {
+				if n.Name == name {
+					return k
+				}
+				k++
+			}
+		}
+		return -1
+	}
+	callArgs := func(body ast.Node, suffix string) []ast.Expr {
+		var r []ast.Expr
+		ast.Inspect(body, func(n ast.Node) bool {
+			if c, ok := n.(*ast.CallExpr); ok && r == nil && strings.HasSuffix(show(fs, c.Fun), suffix) {
+				r = c.Args
+				if r == nil {
+					r = []ast.Expr{}
+				}
+			}
+			return r == nil
+		})
+		return r
+	}
+	own := ""
+	wr, st, sl := p.method("ToxicLink", "write"), p.method("ToxicLink", "Start"), p.method("ToxicCollection", "StartLink")
+	if wr != nil && st != nil && sl != nil && wr.Body != nil && st.Body != nil && sl.Body != nil {
+		ok := true
+		rl, rc := callArgs(wr.Body, ".RemoveLink"), callArgs(wr.Body, ".RemoveConnection")
+		ok = ok && len(rl) == 1 && len(rc) == 1 && show(fs, rl[0]) == show(fs, rc[0])
+		wName, wDest := -1, -1
+		if ok {
+			wName = paramIdx(wr, show(fs, rl[0]))
+			ok = wName >= 0
+		}
+		// the destination it closes
+		ast.Inspect(wr.Body, func(n ast.Node) bool {
+			if es, isE := n.(*ast.ExprStmt); isE {
+				if c, isC := es.X.(*ast.CallExpr); isC {
+					if se, isS := c.Fun.(*ast.SelectorExpr); isS && se.Sel.Name == "Close" {
+						if i := paramIdx(wr, show(fs, se.X)); i >= 0 {
+							wDest = i
+						}
+					}
+				}
+			}
+			return true
+		})
+		ok = ok && wDest >= 0
+		// Start: go link.write(.., name, .., dest)
+		sName, sDest := -1, -1
+		if ok {
+			a := callArgs(st.Body, ".write")
+			if len(a) > wName && len(a) > wDest {
+				sName, sDest = paramIdx(st, show(fs, a[wName])), paramIdx(st, show(fs, a[wDest]))
+			}
+			ok = sName >= 0 && sDest >= 0
+		}
+		// StartLink: link.Start(server, name, input, output); c.links[name] = link; output is StartLink's destination parameter
+		if ok {
+			a := callArgs(sl.Body, ".Start")
+			ok = len(a) > sName && len(a) > sDest
+			if ok {
+				nm := show(fs, a[sName])
+				ok = paramIdx(sl, nm) >= 0 && paramIdx(sl, show(fs, a[sDest])) >= 0 && paramAt(sl, paramIdx(sl, nm)) == nm
+				filed := false
+				ast.Inspect(sl.Body, func(n ast.Node) bool {
+					if as, isA := n.(*ast.AssignStmt); isA && len(as.Lhs) == 1 {
+						if ix, isI := as.Lhs[0].(*ast.IndexExpr); isI && strings.HasSuffix(show(fs, ix.X), ".links") && show(fs, ix.Index) == nm {
+							filed = true
+						}
+					}
+					return true
+				})
+				ok = ok && filed
+			}
+		}
+		own = boolS(ok)
+	}
+	o.emit("writer_deregisters_its_name", "", "bool", own, "true", "", "")
 
 	stopOrder := ""
 	if fd := p.method("", "stop"); fd != nil && fd.Body != nil {
